@@ -145,6 +145,7 @@ type interpreter struct {
 	pools           map[*value][]value        // sync.Pool model: LIFO per pool object
 	syncMaps        map[*value]*omap          // sync.Map model: one insertion-ordered map per sync.Map object
 	fresh           func()                    // symFreshProcess: globals under test back to their initial values
+	osOut           string                    // text written to *os.File through fmt.Fprint* on this path
 	panicOrigin     *ssa.Function             // innermost function in which the pending run-time error arose
 	stubs           map[string]value          // function redirections installed by a harness
 	monitor         *monitor
@@ -687,8 +688,12 @@ func runFrame(fr *frame) {
 				fmt.Fprintf(os.Stderr, "PANIC in %s: %v\n%s\n", fr.fn, p, buf)
 			}
 		}
-		if _, isRT := p.(runtime.Error); isRT && fr.i.panicOrigin == nil {
-			fr.i.panicOrigin = fr.fn
+		if fr.i.panicOrigin == nil {
+			_, isRT := p.(runtime.Error)
+			_, isStr := p.(string)
+			if isRT || isStr {
+				fr.i.panicOrigin = fr.fn
+			}
 		}
 		fr.panicking = true
 		fr.panic = p
